@@ -148,8 +148,8 @@ pub fn install_panic_hook() {
                 .unwrap_or_default();
             let msg = payload_message(info.payload());
             LAST_PANIC.with(|p| *p.borrow_mut() = Some((msg.clone(), loc.0.clone(), loc.1.clone())));
-            if !QUIET.with(|q| *q.borrow()) {
-                eprintln!("panic at {}: {}", loc.0, msg);
+            if std::env::var("QV_BACKTRACE").is_ok() {
+                eprintln!("panic at {}: {}\n{}", loc.0, msg, std::backtrace::Backtrace::force_capture());
             }
         }));
     });
